@@ -82,7 +82,14 @@ def split_answers(cases, out):
                 j += 1
             res.append(out[i:j])
             i = j
-        elif tag in ("cmp", "kind", "ssc", "tstr"):
+        elif tag == "clsweep":
+            j = i
+            lo, hi = int(c.split()[1]), int(c.split()[2])
+            while j < len(out) and out[j].startswith("cls ") and lo <= int(out[j].split()[1]) < hi:
+                j += 1
+            res.append(out[i:j])
+            i = j
+        elif tag in ("cmp", "kind", "ssc", "tstr", "tier", "sad", "gtd"):
             if i < len(out) and out[i].startswith(tag):
                 res.append([out[i]])
                 i += 1
@@ -156,6 +163,8 @@ class Checker:
         self.run, self.T = run, tools
         self.n_corr_bad = 0
         self.spec_failed = set()     # cmp/kind cases already reported with a concrete pair by types_spec
+        self.tier_answers = {}       # lower-cased forced tier name -> C answer
+        self.depth_expect = {}       # sad case line -> (type, level) for the texts printed for the levels themselves
 
     def replay_text(self, case, ac, am, extra=""):
         return "kind: input\ncase: %s\n%simpl:\n  %s\nmodel:\n  %s\n" % (case, extra, "\n  ".join(ac[:12]), "\n  ".join(am[:12]))
@@ -251,6 +260,34 @@ class Checker:
                 elif not re.match(r"(-1|0 type=\d+ (none|cache \d+ -?\d+|group \d+|bridge -?\d+ -?\d+|osdev \d+))$", r):
                     spec_bad = ("type-sscanf-result:" + c.split()[1][:60], "unexpected result %r for %s" % (r, c))
                 run.bump("ssc:accepted" if r.startswith("0") else "ssc:rejected" if r.startswith("-1") else "ssc:oob")
+            elif tag == "clsweep":
+                lo, hi = int(c.split()[1]), int(c.split()[2])
+                if len(a) != hi - lo:
+                    spec_bad = ("pci-class-sweep:%d" % lo, "class sweep %d..%d answered %d lines" % (lo, hi, len(a)))
+                for l in a:
+                    f = l.split()
+                    txt = unhex(f[2]).decode("latin-1") if len(f) == 3 else "?"
+                    m = re.match(r"busid=0000:00:00\.0 id=0000:0000 class=([0-9a-f]{4})\(([!-'*-~]{1,27})\)$", txt)
+                    if not m or int(m.group(1), 16) != int(f[1]):
+                        spec_bad = ("pci-class-string:%s" % f[1], "PCI class %s prints %r: the class name must be 1..27 printable characters without blank or parenthesis" % (f[1], txt))
+                        break
+            elif tag == "tier":
+                r = a[0].split(" -> ", 1)[1] if a and " -> " in a[0] else "?"
+                name = unhex(c.split()[1])
+                if r != "NULL" and not re.fullmatch(r"[0-9a-f]+", r):
+                    spec_bad = ("memory-tier-name:" + c.split()[1][:40], "HWLOC_MEMTIERS=0x1=%r: %s" % (name, r))
+                elif r != "NULL" and unhex(r).lower() != name.lower():
+                    spec_bad = ("memory-tier-name:" + c.split()[1][:40], "forced tier name %r gives subtype %r (must be the same name up to case)" % (name, unhex(r)))
+                self.tier_answers[name.lower()] = r
+            elif tag == "sad":
+                r = a[0].split(" -> ", 1)[1] if a and " -> " in a[0] else "?"
+                if "STORED" in r or "DIFFERS" in r or "OOB" in r or r == "?":
+                    spec_bad = ("sscanf-as-depth:" + c.split()[4][:40] + ":" + os.path.basename(c.split()[1])[:30], "hwloc_type_sscanf_as_depth: %s (%s)" % (r, c[:120]))
+                elif c in self.depth_expect:
+                    t, l = self.depth_expect[c]
+                    if r != "0 type=%d depth=%d" % (t, l):
+                        spec_bad = ("level-text-to-depth:%s:%d" % (os.path.basename(c.split()[1])[:40], l),
+                                    "the type text %r of level %d (type %d) gives %r through hwloc_type_sscanf_as_depth" % (unhex(c.split()[4]), l, t, r))
             elif tag == "tstr":
                 t = int(c.split()[1])
                 r = a[0].split(" rt ", 1)[1] if a and " rt " in a[0] else "?"
@@ -326,6 +363,15 @@ def types_spec(run, cases, ac):
             if a == b and x != 0:
                 bad("spec:compare-types-reflexive:%d" % a, "hwloc_compare_types(%d,%d) = %d" % (a, a, x), ["cmp %d %d" % (a, a)])
     return failed
+
+
+def tier_spec(run, ck):
+    """a name printed by the library is accepted again in any case (harvested from the C answers themselves)"""
+    printed = set(unhex(r).lower() for r in ck.tier_answers.values() if r != "NULL" and re.fullmatch(r"[0-9a-f]+", r))
+    for name, r in ck.tier_answers.items():
+        if name in printed and r == "NULL":
+            run.violation("memory-tier-name-not-accepted:" + name.hex()[:40], "the tier name %r is printed by hwloc_memory_tier_type_snprintf but not accepted by _sscanf" % name,
+                          "kind: input\ncase: tier %s\n" % name.hex())
 
 
 def tables_note(run, proof):
@@ -426,7 +472,7 @@ def check(run, replay=None):
     ck = Checker(run, T)
     if replay:
         txt = open(replay).read()
-        cases = [l[6:] for l in txt.split("\n") if l.startswith("case: ") and l[6:].split(" ", 1)[0].rstrip("!") in ("tsn", "asn", "ssc", "tstr", "cmp", "kind")]
+        cases = [l[6:] for l in txt.split("\n") if l.startswith("case: ") and l[6:].split(" ", 1)[0].rstrip("!") in ("tsn", "asn", "ssc", "tstr", "cmp", "kind", "tier", "clsweep", "sad", "gtd")]
         topos = [l[6:] for l in txt.split("\n") if l.startswith("case: topo ")]
         if topos:
             _, derived = topo_cases(run, T, topos)
@@ -457,10 +503,26 @@ def check(run, replay=None):
     cases += ssc
     # corpus ssc lines also need the fork mark when the model predicts OOB
     cases = [c for c in cases if not c.startswith("ssc")] + with_fork_marks(T, [c for c in cases if c.startswith("ssc ")]) + [c for c in cases if c.startswith("ssc!")]
+    cases += G.clsweep_cases() if run.tier != "quick" or True else []
+    cases += G.tier_cases(rng, run.tier)
     ac, am = ck.execute(cases)
     ck.spec_failed = types_spec(run, cases, ac) or set()     # concrete pairs first
     ck.judge(cases, ac, am, "gen")
+    tier_spec(run, ck)
     tables_note(run, proof)
+
+    # 1b. hwloc_type_sscanf_as_depth / hwloc_get_type_depth_with_attr on loaded topologies
+    srcs = G.lv_sources(C.REPO, CORPUS)
+    rc, out, err = T.c(["lv " + x for x in srcs])
+    dcases = []
+    for l in out:
+        if l.startswith("lv ") and " levels=" in l:
+            cs, ex = G.depth_cases(rng, run.tier, l)
+            dcases += cs
+            ck.depth_expect.update(ex)
+    run.bump("lv:topologies", sum(1 for l in out if " levels=" in l))
+    ac, am = ck.execute(dcases)
+    ck.judge(dcases, ac, am, "depth")
 
     # 2. objects of real topologies
     loaded, derived = topo_cases(run, T, xml_sources())
